@@ -83,6 +83,7 @@ func init() {
 	regSpec("ravail", "f_ravail", SInt, SInt)
 	regSpec("rseg", "f_rseg", SBytes, SInt, SInt, SInt)
 	regSpec("mkseq", "f_mkseq", SSeq, SAIS, SInt, SInt)
+	regSpec("sameSeq", "f_sameSeq", SBool, SSeq, SSeq)
 	regSpec("wrap_i64", "wrap_i64", SInt, SInt)
 	regSpec("tdiv", "tdiv", SInt, SInt, SInt)
 	regSpec("errorfWord", "f_errorfWord", SBool, SErr) // marks errors made by fmt.Errorf without %w
@@ -236,6 +237,10 @@ func Prelude(li *LangInfo, native bool) string {
 	w("(assert (forall ((a (Array Int Str)) (o Int) (n Int) (j Int)) (! (=> (and (<= 0 j) (< j n)) (= (f_sat (f_mkseq a o n) j) (select a (+ o j)))) :pattern ((f_sat (f_mkseq a o n) j)))))")
 	w("(assert (forall ((s SSeq) (j Int)) (! (= (select (f_arrOf s) j) (f_sat s j)) :pattern ((select (f_arrOf s) j)))))")
 	w("(assert (forall ((s SSeq)) (! (= (f_mkseq (f_arrOf s) 0 (f_slen s)) s) :pattern ((f_arrOf s)))))")
+	// extensionality of sequences, triggered explicitly by sameSeq(s, t)
+	w("(declare-fun f_sameSeq (SSeq SSeq) Bool)")
+	w("(declare-fun sk_ext (SSeq SSeq) Int)")
+	w("(assert (forall ((s SSeq) (t SSeq)) (! (and (= (f_sameSeq s t) (= s t)) (or (= s t) (not (= (f_slen s) (f_slen t))) (and (<= 0 (sk_ext s t)) (< (sk_ext s t) (f_slen s)) (not (= (f_sat s (sk_ext s t)) (f_sat t (sk_ext s t))))))) :pattern ((f_sameSeq s t)))))")
 	w("(declare-fun f_join (SSeq Str) Str)")
 	w("(declare-fun f_split (Str Str) SSeq)")
 	w("(declare-fun f_fields (Str) SSeq)")
@@ -301,17 +306,24 @@ func Prelude(li *LangInfo, native bool) string {
 	return b.String()
 }
 
-// ListAxioms are admitted only after the ground obligations G1..G6 on the
-// composite literals of the current tree have been discharged by evaluation.
-func ListAxioms() string {
+// ListAxioms: each family is admitted only after the corresponding ground
+// obligation on the composite literals of the current tree was discharged by
+// evaluation (all=true admits everything: used by the vc debugging command).
+func ListAxioms(facts map[string]bool, all bool) string {
 	var b strings.Builder
 	w := func(f string, a ...interface{}) { fmt.Fprintf(&b, f+"\n", a...) }
-	// distinctness (G2) gives the index function
-	w("(assert (forall ((l Int) (i Int)) (! (=> (and (f_supported l) (<= 0 i) (< i 2048)) (= (f_widx l (f_lst l i)) i)) :pattern ((f_lst l i)))))")
 	w("(assert (forall ((l Int) (x Str)) (! (and (<= (- 1) (f_widx l x)) (< (f_widx l x) 2048)) :pattern ((f_widx l x)))))")
 	w("(assert (forall ((l Int) (x Str)) (! (=> (>= (f_widx l x) 0) (and (f_supported l) (= (f_lst l (f_widx l x)) x))) :pattern ((f_widx l x)))))")
-	// G3..G6: non-empty, white-space free, NFKD-stable
-	w("(assert (forall ((l Int) (i Int)) (! (=> (and (f_supported l) (<= 0 i) (< i 2048)) (and (f_nows (f_lst l i)) (= (f_nfkd (f_lst l i)) (f_lst l i)))) :pattern ((f_lst l i)))))")
+	if all || facts["distinct"] {
+		// G2 distinctness: widx inverts lst
+		w("(assert (forall ((l Int) (i Int)) (! (=> (and (f_supported l) (<= 0 i) (< i 2048)) (= (f_widx l (f_lst l i)) i)) :pattern ((f_lst l i)))))")
+	}
+	if all || facts["nows"] {
+		w("(assert (forall ((l Int) (i Int)) (! (=> (and (f_supported l) (<= 0 i) (< i 2048)) (f_nows (f_lst l i))) :pattern ((f_lst l i)))))")
+	}
+	if all || facts["stable"] {
+		w("(assert (forall ((l Int) (i Int)) (! (=> (and (f_supported l) (<= 0 i) (< i 2048)) (= (f_nfkd (f_lst l i)) (f_lst l i))) :pattern ((f_lst l i)))))")
+	}
 	return b.String()
 }
 
